@@ -12,13 +12,13 @@ Open Scope list_scope.
 Definition mu := "httpcluster.Runner.mu".
 
 Definition site_ctor : site :=
-  mkSite "httpcluster.Runner" "currentEntries" "httpcluster.NewRunner" Wr [] false PreCtor 1 "frozen".
+  mkSite "httpcluster.Runner" "currentEntries" "httpcluster.NewRunner" Wr [] false PreCtor 1 [] "" "frozen".
 Definition site_wr (m : lmode) : site :=
-  mkSite "httpcluster.Runner" "currentEntries" "httpcluster.Runner.shutdown" Wr [(mu, m)] true PreNone 1 "frozen".
+  mkSite "httpcluster.Runner" "currentEntries" "httpcluster.Runner.shutdown" Wr [(mu, m)] true PreNone 1 [] "" "frozen".
 Definition site_rd : site :=
-  mkSite "httpcluster.Runner" "currentEntries" "httpcluster.Runner.GetServerCount" Rd [(mu, Sh)] true PreNone 1 "frozen".
+  mkSite "httpcluster.Runner" "currentEntries" "httpcluster.Runner.GetServerCount" Rd [(mu, Sh)] true PreNone 1 [] "" "frozen".
 Definition site_once_reassign : site :=
-  mkSite "httpcluster.Runner" "mu" "httpcluster.Runner.shutdown" Wr [] true PreNone 1 "frozen".
+  mkSite "httpcluster.Runner" "mu" "httpcluster.Runner.shutdown" Wr [] true PreNone 1 [] "" "frozen".
 
 Definition mini_fields : list field_decl :=
   [mkField "httpcluster.Runner" "mu" TSync; mkField "httpcluster.Runner" "currentEntries" TPlain].
@@ -58,16 +58,16 @@ Lemma ex_extra_lock_accepted :
   table_ok mini_pol []
     (mini [site_ctor;
            mkSite "httpcluster.Runner" "currentEntries" "httpcluster.Runner.shutdown" Wr
-                  [("httpcluster.Runner.other", Ex); (mu, Ex)] true PreNone 1 "frozen";
+                  [("httpcluster.Runner.other", Ex); (mu, Ex)] true PreNone 1 [] "" "frozen";
            site_rd]) = true.
 Proof. vm_compute. reflexivity. Qed.
 
 (* HBVia: a conflicting pair without a common lock must be listed *)
-Definition hb_wr : site := mkSite "c.R" "ch" "c.R.boot" Wr [("c.R.mu", Ex)] true PreNone 1 "frozen".
-Definition hb_rd : site := mkSite "c.R" "ch" "c.R.Run" Rd [] true PreNone 1 "frozen".
+Definition hb_wr : site := mkSite "c.R" "ch" "c.R.boot" Wr [("c.R.mu", Ex)] true PreNone 1 [] "" "frozen".
+Definition hb_rd : site := mkSite "c.R" "ch" "c.R.Run" Rd [] true PreNone 1 [] "" "frozen".
 Definition hb_tbl := mkTable [mkField "c.R" "ch" TChan] [] [] [hb_wr; hb_rd] [].
 Lemma ex_hbvia_listed_or_rejected :
-  table_ok [(("c.R", "ch"), HBVia "p" [("c.R.boot", "c.R.Run")])] [] hb_tbl = true /\
+  table_ok [(("c.R", "ch"), HBVia "p" [HB "c.R.boot" "c.R.Run"])] [] hb_tbl = true /\
   table_ok [(("c.R", "ch"), HBVia "p" [])] [] hb_tbl = false.
 Proof. vm_compute. auto. Qed.
 
@@ -101,7 +101,7 @@ Lemma ex_rlock_writer_races :
   exists st ti tj, run (init2 Sh) [0; 1] = Some st /\
     nth_error st 0 = Some ti /\ nth_error st 1 = Some tj /\
     next_acc ti = Some (site_wr Sh) /\ next_acc tj = Some site_rd /\
-    conflict (site_wr Sh) site_rd = true /\ excused mini_pol [] (site_wr Sh) site_rd = false.
+    conflict (site_wr Sh) site_rd = true /\ excused mini_pol [] mini_broken (site_wr Sh) site_rd = false.
 Proof. vm_compute. eexists. eexists. eexists. repeat split; reflexivity. Qed.
 
 (* repaired shape: the program is not stuck (it can run to completion) and is race free by the theorem *)
